@@ -366,7 +366,30 @@ func loadKnown() []knownFinding {
 		fmt.Fprintf(os.Stderr, "HARNESS: known_findings.json unreadable: %v\n", err)
 		os.Exit(2)
 	}
-	return k.Findings
+	out := k.Findings
+	// per-engine continuation files (same format): known_findings_<engine>.json
+	more, _ := filepath.Glob(filepath.Join(verifRoot, "known_findings_*.json"))
+	sort.Strings(more)
+	for _, f := range more {
+		var k2 struct {
+			Findings []knownFinding `json:"findings"`
+		}
+		b, err := os.ReadFile(f)
+		if err != nil {
+			continue
+		}
+		if err := json.Unmarshal(b, &k2); err != nil {
+			fmt.Fprintf(os.Stderr, "HARNESS: %s unreadable: %v\n", f, err)
+			os.Exit(2)
+		}
+		for _, x := range k2.Findings {
+			if x.Status == "" {
+				x.Status = "known"
+			}
+			out = append(out, x)
+		}
+	}
+	return out
 }
 
 func envSeed() uint64 {
